@@ -134,6 +134,77 @@ func runC13(ctx *core.Ctx, idx int) *core.Result {
 			}
 			variants = append(variants, variant{t, w, d})
 		}
+	} else if idx%8 == 5 {
+		// a stepwise migration: the '-' side of the second change is, byte for byte, the '+' side of the first one.
+		// Re-laying one of the two changes (which ends the textual identity) must not change the result.
+		mvx := []gen.MetaVar{{Name: "v", Kind: "identifier"}, {Name: "x", Kind: "expression"}}
+		var c1, c2 *gen.Change
+		mk := func(kind string, meta []gen.MetaVar, ls ...string) *gen.Change {
+			c := &gen.Change{Kind: kind, Schema: "c13-two-step", Meta: meta}
+			for _, l := range ls {
+				c.Lines = append(c.Lines, gen.L(l[0], l[1:]))
+			}
+			return c
+		}
+		var plant func() gen.Plant
+		switch r.Intn(3) {
+		case 0:
+			c1 = mk("stmts", mvx, " «v», err := tgtOpen(«x»)", " ‹1:stmts›", "-defer «v».Close()", "+defer quiet(«v»)")
+			c2 = mk("stmts", mvx, " «v», err := tgtOpen(«x»)", " ‹1:stmts›", "-defer quiet(«v»)", "+defer loud(«v»)")
+			plant = func() gen.Plant {
+				return gen.Plant{Kind: "stmts", Text: "before()\nfh, err := tgtOpen(" + g.Atom() + ")\nif err != nil {\n\treturn\n}\ncheck(fh)\ndefer fh.Close()\nafter()"}
+			}
+		case 1:
+			mx := []gen.MetaVar{{Name: "x", Kind: "expression"}}
+			c1 = mk("expr", mx, "-tgtA(‹1:args›, «x», ‹2:args›)", "+tgtB(‹1:args›, «x», ‹2:args›)")
+			c2 = mk("expr", mx, "-tgtB(‹1:args›, «x», ‹2:args›)", "+tgtC(‹1:args›, wrap(«x»), ‹2:args›)")
+			plant = func() gen.Plant {
+				return gen.Plant{Kind: "expr", Text: "tgtA(" + g.Run("args", 1+r.Intn(2)) + ", " + g.Atom() + ", " + g.Run("args", 1+r.Intn(2)) + ")"}
+			}
+		default:
+			c1 = mk("stmts", mvx, " «v» := tgtNew(«x»)", " ‹1:stmts›", " if «v».Ready() {", "   ‹2:stmts›", "-  «v».Start()", "+  «v».Run()", " }")
+			c2 = mk("stmts", mvx, " «v» := tgtNew(«x»)", " ‹1:stmts›", " if «v».Ready() {", "   ‹2:stmts›", "-  «v».Run()", "+  «v».RunCtx(ctx)", " }")
+			plant = func() gen.Plant {
+				return gen.Plant{Kind: "stmts", Text: "w := tgtNew(" + g.Atom() + ")\nprep(w)\nif w.Ready() {\n\tlog()\n\tw.Start()\n}\nafter()"}
+			}
+		}
+		baseText, baseName = c1.PatchText()+"\n"+c2.PatchText(), "two-step:"+c1.Skeleton()
+		for f := 0; f < 3; f++ {
+			var plants []gen.Plant
+			for i := 0; i < 1+r.Intn(3); i++ {
+				plants = append(plants, plant())
+			}
+			srcs = append(srcs, g.File(gen.FileOpts{Plants: plants}))
+		}
+		for v := 0; v < 10; v++ {
+			d := []*gen.Change{c1, c2}
+			which := r.Intn(2)
+			word := ""
+			switch r.Intn(4) {
+			case 0:
+				if nd, ok := gen.Reindent(d[which], r); ok {
+					d[which], word = nd, "reindent"
+				}
+			case 1:
+				if nd, ok := gen.RenameMetas(d[which], r); ok {
+					d[which], word = nd, "rename"
+				}
+			case 2:
+				if nd, ok := gen.ContextToPair(d[which], r); ok && nd.CheckPairing() == nil {
+					d[which], word = nd, "context<->pair"
+				}
+			}
+			t0, t1 := d[0].PatchText(), d[1].PatchText()
+			w := ""
+			if which == 0 {
+				t0, w, _ = gen.TextTransform(t0, r, r.Intn(3))
+			} else {
+				t1, w, _ = gen.TextTransform(t1, r, r.Intn(3))
+			}
+			sep := []string{"\n", "\n\n", "\n# step two\n"}[r.Intn(3)]
+			variants = append(variants, variant{t0 + sep + t1, fmt.Sprintf("two-step[%d]:%s+%s", which, word, w), nil})
+		}
+		res.Ob("two-step-cases", 1)
 	} else {
 		var c *gen.Change
 		if idx%4 == 2 {
